@@ -19,6 +19,8 @@ import LA.Proofs.RulePrint
 import LA.Proofs.RuleExit
 import LA.Proofs.RuleText
 import LA.Proofs.RuleTextStr
+import LA.Proofs.Trim
+import LA.Gen.Syscalls_x86_64
 
 namespace LA.Rule
 open LA LA.Flags
@@ -2371,6 +2373,512 @@ example : ((ruleDataOf ⟨false, [], []⟩ (.watch (ofString "/etc/passwd") [2, 
       (asFileWatch r == some (ofString "/etc/passwd", ofString "wa", ofString "k")) &&
       ((false : Bool) == (r.fields.head? == some LA.Gen.RuleTables.dirField)) &&
       (trimSpace (ofString "k") == ofString "k"))) = some true := by
+  decide +kernel
+
+/-! ### the text half composed over a whole line: explicit syscall lists -/
+
+/-- "names no architecture": every successful result has an empty arch component. -/
+def NoArch (o : Option (Nat × Option Bytes × Option Bytes)) : Prop := ∀ x, o = some x → x.2.2 = none
+
+theorem noArch_none : NoArch none := by intro x h; cases h
+theorem noArch_ite {c : Prop} [Decidable c] {a b : Option (Nat × Option Bytes × Option Bytes)} (ha : NoArch a) (hb : NoArch b) :
+    NoArch (if c then a else b) := by split <;> assumption
+theorem noArch_map {α : Type} (o : Option α) (g : α → Nat) (z : α → Option Bytes) : NoArch (o.map (fun v => (g v, z v, none))) := by
+  intro x h
+  cases o with
+  | none => simp at h
+  | some w => simp only [Option.map_some, Option.some.injEq] at h; subst h; rfl
+theorem noArch_some (n : Nat) (s : Option Bytes) : NoArch (some (n, s, none)) := by
+  intro x h; simp only [Option.some.injEq] at h; subst h; rfl
+theorem noArch_bind (o : Option Nat) (c : Nat → Bool) : NoArch (o.bind fun n => if c n = true then some (n, none, none) else none) := by
+  intro x h
+  cases o with
+  | none => simp at h
+  | some w =>
+    simp only [Option.bind_some] at h
+    split at h
+    · simp only [Option.some.injEq] at h; subst h; rfl
+    · cases h
+
+/-- filterValue names an architecture only for the arch field. -/
+theorem filterValue_arch_none {env : Env} {r : RuleData} {f opc : Nat} {rhs : Bytes} {v : Nat} {s a : Option Bytes}
+    (hf : (f == LA.Gen.RuleTables.archField) = false) (h : filterValue env r f opc rhs = some (v, s, a)) : a = none := by
+  unfold filterValue at h
+  simp only [hf, Bool.false_eq_true, if_false] at h
+  have key : ∀ o, o = some (v, s, a) → NoArch o → a = none := fun o ho hn => hn _ ho
+  refine key _ h ?_
+  repeat' first
+    | exact noArch_none
+    | exact noArch_some _ _
+    | exact noArch_map _ (fun v => v) (fun _ => none)
+    | exact noArch_map _ toU32 (fun _ => none)
+    | exact noArch_bind _ _
+    | apply noArch_ite
+
+/-- without an arch filter Build leaves the rule's arch empty; an explicit "all" is the only way
+to keep allSyscalls once a syscall was named; a rule that does not apply to all syscalls names one. -/
+structure SysInv (r : RuleData) : Prop where
+  arch : (∀ t ∈ r.trips, (t.1 == LA.Gen.RuleTables.archField) = false) → r.arch = []
+  expl : r.allSyscalls = false → r.explicitAll = false ∧ r.syscalls ≠ []
+
+theorem sysInv_ruleDataOf {env : Env} {rule : Rule} {r : RuleData} (h : ruleDataOf env rule = some r) : SysInv r := by
+  refine ruleDataOf_induct (env := env) SysInv ?_ ?_ ?_ ?_ h
+  · intro fl ac _ _
+    exact ⟨fun _ => rfl, fun h => by cases h⟩
+  · intro r r' l o v hp hf
+    unfold addFilter at hf
+    split at hf
+    · rename_i opc f hop hfl
+      split at hf
+      · simp at hf
+      · cases hv : filterValue env r f opc v with
+        | none => rw [hv] at hf; simp at hf
+        | some x =>
+          obtain ⟨val, s, a⟩ := x
+          rw [hv] at hf
+          simp only [Option.map_some, Option.some.injEq] at hf
+          subst hf
+          refine ⟨?_, hp.expl⟩
+          intro hna
+          have hf' : (f == LA.Gen.RuleTables.archField) = false := hna (f, val, opc) (by simp)
+          have := filterValue_arch_none hf' hv
+          subst this
+          simp only
+          exact hp.arch (fun t ht => hna t (by simp [ht]))
+    · simp at hf
+  · intro r r' l o v hp hi
+    have hsame : r'.arch = r.arch ∧ r'.allSyscalls = r.allSyscalls ∧ r'.explicitAll = r.explicitAll ∧ r'.syscalls = r.syscalls ∧
+        ∀ t ∈ r.trips, t ∈ r'.trips := by
+      unfold addInterField at hi
+      cases hop : lookupB LA.Gen.RuleTables.operatorsTable o with
+      | none => rw [hop] at hi; simp at hi
+      | some opc =>
+        rw [hop] at hi
+        simp only at hi
+        split at hi
+        · simp at hi
+        · split at hi
+          · split at hi
+            · simp at hi
+            · rename_i lf rf _ _ _
+              cases hc : lookupComparison lf rf with
+              | none => rw [hc] at hi; simp at hi
+              | some c =>
+                rw [hc] at hi
+                simp only [Option.some.injEq] at hi
+                subst hi
+                exact ⟨rfl, rfl, rfl, rfl, fun t ht => by simp [ht]⟩
+          · simp at hi
+    obtain ⟨e1, e2, e3, e4, e5⟩ := hsame
+    refine ⟨fun hna => by rw [e1]; exact hp.arch (fun t ht => hna t (e5 t ht)), fun hh => ?_⟩
+    rw [e3, e4]; exact hp.expl (by rw [← e2]; exact hh)
+  · intro r r' sc hp hs
+    unfold addSyscall at hs
+    split at hs
+    · simp only [Option.some.injEq] at hs; subst hs
+      exact ⟨hp.arch, fun hh => by cases hh⟩
+    · simp only at hs
+      split at hs
+      · simp at hs
+      · split at hs
+        · simp at hs
+        · simp only [Option.some.injEq] at hs; subst hs
+          refine ⟨hp.arch, fun hh => ?_⟩
+          simp only at hh ⊢
+          exact ⟨hh, by simp⟩
+
+/-! ### explicit syscall lists on the runtime architecture -/
+
+/-- what ToCommandLine prints for a syscall number when the rule has no arch filter -/
+def sysText (n : Nat) : Bytes :=
+  match Tables.syscallName runtimeArch n with
+  | some nm => nm
+  | none => dec n
+
+theorem x86_names_clean :
+    LA.Gen.Syscalls_x86_64.table.all (fun p =>
+      (match atoiGo p.2 with | .syntax => true | _ => false) && !(p.2 == ofString "all") && !(p.2.contains 44) &&
+      (trimSpace p.2 == p.2) && !p.2.isEmpty) = true := by
+  decide +kernel
+
+theorem sysTable_runtime : Tables.sysTable runtimeArch =
+    some (ofString "x86_64", LA.Gen.Syscalls_x86_64.table, LA.Gen.Syscalls_x86_64.nameTree, LA.Gen.Syscalls_x86_64.numTree) := rfl
+
+/-- a name the runtime table gives for a number is a clean word that the table maps back to it. -/
+theorem syscallName_facts {n : Nat} {nm : Bytes} (h : Tables.syscallName runtimeArch n = some nm) :
+    atoiGo nm = .syntax ∧ (nm == ofString "all") = false ∧ (44 : Nat) ∉ nm ∧ trimSpace nm = nm ∧ nm ≠ [] ∧
+    Tables.syscallNum runtimeArch nm = some n := by
+  unfold Tables.syscallName at h
+  rw [sysTable_runtime] at h
+  simp only at h
+  cases hf : LA.Gen.Syscalls_x86_64.numTree.find n with
+  | none => rw [hf] at h; cases h
+  | some i =>
+    rw [hf] at h
+    simp only at h
+    cases hg : LA.Gen.Syscalls_x86_64.table[i]? with
+    | none => rw [hg] at h; cases h
+    | some p =>
+      rw [hg] at h
+      simp only at h
+      split at h
+      · rename_i hn
+        simp only [Option.some.injEq] at h
+        have hmem : p ∈ LA.Gen.Syscalls_x86_64.table := List.mem_of_getElem? hg
+        have hc := List.all_eq_true.mp x86_names_clean p hmem
+        have hnm := List.all_eq_true.mp LA.Gen.Syscalls_x86_64.cert_names p hmem
+        simp only [Bool.and_eq_true, Bool.not_eq_true', beq_iff_eq, List.contains_eq_mem, decide_eq_false_iff_not] at hc hnm
+        obtain ⟨⟨⟨⟨c1, c2⟩, c3⟩, c4⟩, c5⟩ := hc
+        have hpn : p.1 = n := by simpa using hn
+        rw [h] at c1 c2 c3 c4 c5 hnm
+        refine ⟨?_, by simpa using c2, c3, c4, ?_, ?_⟩
+        · cases ha : atoiGo nm with
+          | «syntax» => rfl
+          | ok _ => rw [ha] at c1; cases c1
+          | range => rw [ha] at c1; cases c1
+        · intro hh; rw [hh] at c5; simp at c5
+        · unfold Tables.syscallNum
+          rw [sysTable_runtime]
+          simp only [hnm, hpn]
+      · cases h
+
+theorem atoiGo_dec (n : Nat) (h : n < 2048) : atoiGo (dec n) = .ok (n : Int) := by
+  obtain ⟨d, tl, hd, hdig⟩ := dec_cons_digit n
+  unfold atoiGo parseIntGo
+  have hp := parseUintGo_dec10 n 64 (by omega)
+  rw [hd] at hp ⊢
+  simp only [List.isEmpty_cons, Bool.false_eq_true, if_false, splitSign_digit hdig, hp]
+  simp
+  omega
+
+theorem dec_ne_all (n : Nat) : (dec n == ofString "all") = false := by
+  obtain ⟨d, tl, hd, hdig⟩ := dec_cons_digit n
+  rw [hd]
+  have : d ≠ 97 := by
+    intro hh; subst hh; simp [isDigit] at hdig
+  have e : ofString "all" = [97, 108, 108] := by decide
+  rw [e]
+  simp [this]
+
+/-- naming a syscall number the way it is printed adds exactly that number. -/
+theorem addSyscall_sysText (r : RuleData) (n : Nat) (hn : n < 2048) (harch : r.arch = []) (hexp : r.explicitAll = false) :
+    addSyscall r (sysText n) = some { r with allSyscalls := false, syscalls := r.syscalls ++ [n] } := by
+  have hsz : (LA.Gen.RuleTables.syscallBitmaskSize * 32 : Nat) = 2048 := by decide
+  unfold sysText
+  cases hnm : Tables.syscallName runtimeArch n with
+  | some nm =>
+    obtain ⟨f1, f2, _, _, _, f6⟩ := syscallName_facts hnm
+    unfold addSyscall
+    simp only [f2, Bool.false_eq_true, if_false, f1, harch, List.isEmpty_nil, if_true, sysTable_runtime, f6, Option.map_some, hexp, hsz]
+    have hx : ¬((n : Int) < 0 ∨ (n : Int) ≥ ((2048 : Nat) : Int)) := by omega
+    simp [hx]
+    omega
+  | none =>
+    unfold addSyscall
+    simp only [dec_ne_all n, Bool.false_eq_true, if_false, atoiGo_dec n hn, hexp, hsz]
+    have hx : ¬((n : Int) < 0 ∨ (n : Int) ≥ ((2048 : Nat) : Int)) := by omega
+    simp [hx]
+    omega
+
+theorem trailingSpaceLenRev_ascii (z : Nat) (q : Bytes) (hz : z < 128) (hz' : isAsciiSpace z = false) :
+    trailingSpaceLenRev (z :: q) = 0 := by
+  unfold trailingSpaceLenRev
+  simp only [hz', Bool.false_eq_true, if_false]
+  split
+  all_goals first | rfl | omega | (rw [if_neg]; simp; omega)
+
+/-- TrimSpace leaves text alone that begins and ends with non-space ASCII bytes. -/
+theorem trimSpace_fixed (s : Bytes) (a z : Nat) (ha : s.head? = some a) (hz : s.getLast? = some z)
+    (ha1 : a < 128) (ha2 : isAsciiSpace a = false) (hz1 : z < 128) (hz2 : isAsciiSpace z = false) : trimSpace s = s := by
+  cases s with
+  | nil => simp at ha
+  | cons x rest =>
+    simp only [List.head?_cons, Option.some.injEq] at ha
+    subst ha
+    have hl : trimLeftSpace (x :: rest) = x :: rest := by
+      simp [trimLeftSpace, trimLeftSpaceAux, leadingSpaceLen_ascii x _ ha1 ha2]
+    unfold trimSpace
+    rw [hl]
+    unfold trimRightSpace
+    have hrev : ∃ q, (x :: rest).reverse = z :: q := by
+      have := List.getLast?_eq_head?_reverse (xs := x :: rest)
+      rw [hz] at this
+      cases hr : (x :: rest).reverse with
+      | nil => rw [hr] at this; simp at this
+      | cons y q =>
+        rw [hr] at this
+        simp only [List.head?_cons, Option.some.injEq] at this
+        exact ⟨q, by rw [this]⟩
+    obtain ⟨q, hq⟩ := hrev
+    rw [hq]
+    have : trimRightSpaceRevAux (x :: rest).length (z :: q) = z :: q := by
+      simp only [List.length_cons, trimRightSpaceRevAux, trailingSpaceLenRev_ascii z q hz1 hz2]
+    rw [this, ← hq]
+    simp
+
+theorem dec_trim (n : Nat) : trimSpace (dec n) = dec n := by
+  have hd := dec_digits n
+  cases hs : dec n with
+  | nil => exact absurd hs (dec_ne_nil n)
+  | cons a rest =>
+    have hlast : ∃ z, (a :: rest).getLast? = some z := by
+      cases h : (a :: rest).getLast? with
+      | none => simp at h
+      | some z => exact ⟨z, rfl⟩
+    obtain ⟨z, hz⟩ := hlast
+    have ha : isDigit a = true := by simpa using hd a (by rw [hs]; simp)
+    have hzm : z ∈ a :: rest := List.mem_of_getLast? hz
+    have hzd : isDigit z = true := by simpa using hd z (by rw [hs]; exact hzm)
+    have dig : ∀ b, isDigit b = true → b < 128 ∧ isAsciiSpace b = false := by
+      intro b hb
+      simp only [isDigit, Bool.and_eq_true, decide_eq_true_eq] at hb
+      refine ⟨by omega, ?_⟩
+      unfold isAsciiSpace
+      simp
+      omega
+    exact trimSpace_fixed (a :: rest) a z rfl hz (dig a ha).1 (dig a ha).2 (dig z hzd).1 (dig z hzd).2
+
+theorem dec_no_comma (n : Nat) : (44 : Nat) ∉ dec n := by
+  intro h
+  have := dec_digits n 44 h
+  simp [isDigit] at this
+
+/-- printed syscall names are clean list items. -/
+theorem sysText_clean (n : Nat) : (44 : Nat) ∉ sysText n ∧ trimSpace (sysText n) = sysText n := by
+  unfold sysText
+  cases hnm : Tables.syscallName runtimeArch n with
+  | some nm =>
+    obtain ⟨_, _, f3, f4, _, _⟩ := syscallName_facts hnm
+    exact ⟨f3, f4⟩
+  | none => exact ⟨dec_no_comma n, dec_trim n⟩
+
+theorem splitByte_cons_no_sep (sep : Nat) (a rest : Bytes) (ha : sep ∉ a) :
+    splitByte sep (a ++ sep :: rest) = a :: splitByte sep rest := by
+  induction a with
+  | nil =>
+    simp only [List.nil_append, splitByte, beq_self_eq_true, if_true]
+    cases h : splitByte sep rest with
+    | nil =>
+      exfalso
+      cases rest with
+      | nil => simp [splitByte] at h
+      | cons y ys =>
+        simp only [splitByte] at h
+        split at h
+        · simp at h
+        · split at h <;> simp at h
+    | cons c r => rfl
+  | cons b bs ih =>
+    have hb : (b == sep) = false := by
+      have : b ≠ sep := fun e => ha (by simp [e])
+      simpa using this
+    simp only [List.cons_append, splitByte, ih (fun hh => ha (by simp [hh])), hb, Bool.false_eq_true, if_false]
+
+theorem splitByte_join (sep : Nat) (items : List Bytes) (hne : items ≠ []) (h : ∀ it ∈ items, sep ∉ it) :
+    splitByte sep (joinWith [sep] items) = items := by
+  induction items with
+  | nil => exact absurd rfl hne
+  | cons a rest ih =>
+    cases rest with
+    | nil => simp only [joinWith]; exact splitByte_no_sep sep a (h a (by simp))
+    | cons b rest2 =>
+      have e : joinWith [sep] (a :: b :: rest2) = a ++ sep :: joinWith [sep] (b :: rest2) := by
+        simp [joinWith]
+      rw [e, splitByte_cons_no_sep sep a _ (h a (by simp)), ih (by simp) (fun it hit => h it (by simp [hit]))]
+
+theorem splitList_sysTexts (ns : List Nat) (hne : ns ≠ []) :
+    splitList (joinWith [44] (ns.map sysText)) = ns.map sysText := by
+  unfold splitList
+  rw [splitByte_join 44 (ns.map sysText) (by simpa using hne) (fun it hit => by
+    obtain ⟨n, _, rfl⟩ := List.mem_map.mp hit
+    exact (sysText_clean n).1)]
+  rw [List.map_map]
+  apply List.map_congr_left
+  intro n _
+  exact (sysText_clean n).2
+
+/-- naming the syscalls of a list the way they are printed, one after the other, adds exactly them. -/
+theorem foldl_addSyscall_sysText (n : Nat) (rest : List Nat) (hn : ∀ m ∈ n :: rest, m < 2048) (r0 : RuleData)
+    (harch : r0.arch = []) (hexp : r0.explicitAll = false) :
+    ((n :: rest).map sysText).foldl (fun (acc : Option RuleData) s => acc.bind fun r => addSyscall r s) (some r0) =
+      some { r0 with allSyscalls := false, syscalls := r0.syscalls ++ n :: rest } := by
+  induction rest generalizing n r0 with
+  | nil =>
+    simp only [List.map_cons, List.map_nil, List.foldl_cons, List.foldl_nil, Option.bind_some]
+    exact addSyscall_sysText r0 n (hn n (by simp)) harch hexp
+  | cons m rest ih =>
+    simp only [List.map_cons, List.foldl_cons, Option.bind_some]
+    rw [addSyscall_sysText r0 n (hn n (by simp)) harch hexp]
+    have := ih m (fun x hx => hn x (by simp [hx])) { r0 with allSyscalls := false, syscalls := r0.syscalls ++ [n] } harch hexp
+    simp only [List.map_cons, List.foldl_cons] at this
+    rw [this]
+    simp [List.append_assoc]
+
+/-- the tokens of the line ToCommandLine prints for a rule with an explicit syscall list and no arch filter -/
+def lineTokensS (l a : Bytes) (ns : List Nat) (ps : List GPart) : List Bytes :=
+  [tokA, a ++ [44] ++ l, tokS, joinWith [44] (ns.map sysText)] ++ gTokens ps
+
+/-- Second clause of C07 for rules with an **explicit syscall list** (no arch filter, so the names
+are those of the runtime architecture's table; numbers without a name are printed as numbers):
+every syscall rule Build accepts that names its syscalls, has no arch filter, no empty permission
+set, and string values that are non-empty and do not begin with '=' prints as
+`-a action,list -S s1,…,sn` followed by one `-F` / `-C` element per field; the `-S` value is split
+at the commas into exactly those items, each resolves to the number it was printed for (the table
+maps every name it gives for a number back to that number; a printed number parses to itself),
+the fields re-parse and re-build as in `C07_roundtrip_no_arch`, and the wire data — syscall mask
+included — is byte-identical. -/
+theorem C07_roundtrip_syscalls (env : Env) (he : EnvOk env) (rule : Rule) (r : RuleData)
+    (hr : ruleDataOf env rule = some r)
+    (harch : ∀ t ∈ r.trips, (t.1 == LA.Gen.RuleTables.archField) = false)
+    (hperm : ∀ t ∈ r.trips, t.1 = LA.Gen.RuleTables.permField → t.2.1 ≠ 0)
+    (hstr : ∀ s ∈ r.strings, ∃ c tl, s = c :: tl ∧ c ≠ 61)
+    (hall : r.allSyscalls = false) :
+    ∃ (l a : Bytes) (ps : List GPart),
+      getList r.flags = some l ∧ getAction r.action = some a ∧ ps.length = r.trips.length ∧
+      cmdLineOf r = some (joinWith [32] ([ofString "-a", a ++ [44] ++ l] ++
+        [ofString "-S", joinWith [44] (r.syscalls.map sysText)] ++ ps.map gPrint)) ∧
+      ∃ rule' r', parseArgs (lineTokensS l a r.syscalls ps) = some rule' ∧
+        ruleDataOf env rule' = some r' ∧ r'.trips = r.trips ∧ toWire r' = toWire r := by
+  have hp := printInv_ruleDataOf he hr
+  have hsa := saligned_ruleDataOf hr
+  have hjust := justified_ruleDataOf hr
+  have hcj := cmpJust_ruleDataOf hr
+  have hsi := sysInv_ruleDataOf hr
+  obtain ⟨hexp, hsne⟩ := hsi.expl hall
+  cases hl : getList r.flags with
+  | none => have := hp.list; rw [hl] at this; cases this
+  | some l =>
+  cases ha : getAction r.action with
+  | none => have := hp.action; rw [ha] at this; cases this
+  | some a =>
+  obtain ⟨ps, hps⟩ := printed_exists env r.flags r.trips r.strings hsa hp.trips harch hjust hcj hperm hstr
+  have hw : asFileWatch r = none := by
+    unfold asFileWatch
+    simp [hall]
+  refine ⟨l, a, ps, rfl, rfl, printed_length hps, ?_, ?_⟩
+  · unfold cmdLineOf
+    rw [hl, ha]
+    simp only
+    rw [hw]
+    simp only
+    have hnoarch : lastIndexOf r.fields LA.Gen.RuleTables.archField = none := by
+      unfold lastIndexOf
+      have : (r.fields.zipIdx).filter (fun p => p.1 == LA.Gen.RuleTables.archField) = [] := by
+        rw [List.filter_eq_nil_iff]
+        intro p hpm
+        have hz := List.mem_zipIdx_iff_getElem?.mp hpm
+        simp only [RuleData.fields, List.getElem?_map, Option.map_eq_some_iff] at hz
+        obtain ⟨t, hti, htf⟩ := hz
+        have := harch t (List.mem_of_getElem? hti)
+        rw [htf] at this
+        simpa using this
+      rw [this]; rfl
+    rw [hnoarch]
+    simp only
+    have hpf := printFields_printed hps
+    have hse : r.syscalls.isEmpty = false := by
+      cases hs : r.syscalls with
+      | nil => exact absurd hs hsne
+      | cons _ _ => rfl
+    have hb32 : (([] : Bytes) == ofString "b32") = false := by decide
+    simp only [RuleData.fields, RuleData.values, RuleData.fieldFlags, hpf, hall, Bool.false_eq_true, if_false, hse, hb32,
+      List.isEmpty_nil, Bool.not_true, Bool.false_and]
+    simp only [List.append_nil, List.append_assoc]
+    rfl
+  · have hmatch := printed_match he hps
+    have hfold := foldl_printed env he hps { flags := r.flags, action := r.action, allSyscalls := true } rfl
+    have hfold' : (ps.map gFilter).foldl (fun (acc : Option RuleData) f =>
+        acc.bind fun r =>
+          if (f.typ == 2) = true then addFilter env r f.lhs f.op f.rhs
+          else if (f.typ == 1) = true then addInterField r f.lhs f.op f.rhs
+          else some r) (some { flags := r.flags, action := r.action, allSyscalls := true }) =
+        some { flags := r.flags, action := r.action, allSyscalls := true, trips := r.trips, strings := r.strings } := by
+      simpa using hfold
+    -- the syscall list
+    obtain ⟨n, rest, hns⟩ : ∃ n rest, r.syscalls = n :: rest := by
+      cases hs : r.syscalls with
+      | nil => exact absurd hs hsne
+      | cons n rest => exact ⟨n, rest, rfl⟩
+    have hbound : ∀ m ∈ n :: rest, m < 2048 := fun m hm => hp.words.syscalls m (by rw [hns]; exact hm)
+    have hsysfold := foldl_addSyscall_sysText n rest hbound
+      { flags := r.flags, action := r.action, allSyscalls := true, trips := r.trips, strings := r.strings } rfl rfl
+    have hsplit : splitList (joinWith [44] (r.syscalls.map sysText)) = r.syscalls.map sysText :=
+      splitList_sysTexts r.syscalls hsne
+    -- the flag loop
+    have hadd := setAdd_print hl ha
+    have hsetA : setFlag {} 97 (a ++ [44] ++ l) = some (fsAfterG l a [] [97] []) := by
+      unfold setFlag
+      simp only [beq_self_eq_true, if_true, hadd, Option.map_some, fsAfterG, List.map_nil, List.nil_append]
+    have hlet : ∀ x ∈ ps.map (fun p : GPart => p.1), x = 70 ∨ x = 67 := by
+      intro x hx
+      obtain ⟨p, hpm, rfl⟩ := List.mem_map.mp hx
+      rcases hmatch p hpm with ⟨h, _⟩ | ⟨h, _⟩
+      · exact Or.inl h
+      · exact Or.inr h
+    have htok : lineTokensS l a r.syscalls ps = tokA :: (a ++ [44] ++ l) :: tokS :: joinWith [44] (r.syscalls.map sysText) :: (gTokens ps ++ []) := by
+      simp only [lineTokensS, List.cons_append, List.nil_append, List.append_nil]
+    have hfuel : (lineTokensS l a r.syscalls ps).length + 1 = (((3 + ps.length) + ps.length) + 1) + 1 := by
+      rw [htok]
+      simp only [List.length_cons, List.length_append, List.length_nil, gTokens_length]
+      omega
+    have hloop : parseLoop ((lineTokensS l a r.syscalls ps).length + 1) (lineTokensS l a r.syscalls ps) {} =
+        some (fsAfterG l a (r.syscalls.map sysText) ([97] ++ [83] ++ ps.map (fun p : GPart => p.1)) ps, 0) := by
+      rw [hfuel, htok, parseLoop_a, hsetA]
+      simp only [Option.bind_some]
+      rw [parseLoop_S]
+      have hsetS : setFlag (fsAfterG l a [] [97] []) 83 (joinWith [44] (r.syscalls.map sysText)) =
+          some (fsAfterG l a (r.syscalls.map sysText) ([97] ++ [83]) []) := by
+        unfold setFlag
+        simp only [show ((83 : Nat) == 97) = false by decide, show ((83 : Nat) == 65) = false by decide,
+          show ((83 : Nat) == 67) = false by decide, show ((83 : Nat) == 70) = false by decide, Bool.false_eq_true,
+          if_false, beq_self_eq_true, if_true, hsplit, fsAfterG, List.map_nil, List.nil_append]
+      rw [hsetS]
+      simp only [Option.bind_some]
+      rw [parseLoop_gTokens ps hmatch]
+      have e3 : 3 + ps.length = (2 + ps.length) + 1 := by omega
+      rw [e3]
+      simp only [fsAfterG, List.map_nil, List.nil_append, parseLoop]
+    have hfin : finish (fsAfterG l a (r.syscalls.map sysText) ([97] ++ [83] ++ ps.map (fun p : GPart => p.1)) ps) =
+        some (.syscall 3 l a (ps.map gFilter) (r.syscalls.map sysText) []) := by
+      unfold finish fsAfterG
+      have c1 : ([97] ++ [83] ++ ps.map (fun p : GPart => p.1)).contains 68 = false := by
+        simp only [List.contains_eq_mem, decide_eq_false_iff_not, List.mem_append, List.mem_cons, List.mem_nil_iff, or_false]
+        intro hh
+        rcases hh with (hh | hh) | hh
+        · omega
+        · omega
+        · rcases hlet 68 hh with h | h <;> omega
+      have c2 : ([97] ++ [83] ++ ps.map (fun p : GPart => p.1)).any (fun n => n == 119 || n == 112) = false := by
+        rw [List.any_eq_false]
+        intro x hx
+        simp only [List.mem_append, List.mem_cons, List.mem_nil_iff, or_false] at hx
+        rcases hx with (rfl | rfl) | hx
+        · decide
+        · decide
+        · rcases hlet x hx with rfl | rfl <;> decide
+      have c3 : ([97] ++ [83] ++ ps.map (fun p : GPart => p.1)).any (fun n => n == 97 || n == 65 || n == 67 || n == 70 || n == 83) = true := by
+        simp
+      simp only [c1, c2, c3]
+      rfl
+    have hparse : parseArgs (lineTokensS l a r.syscalls ps) = some (.syscall 3 l a (ps.map gFilter) (r.syscalls.map sysText) []) := by
+      unfold parseArgs
+      rw [hloop]
+      simp only [Nat.lt_irrefl, if_false, gt_iff_lt]
+      exact hfin
+    have hrd : ruleDataOf env (.syscall 3 l a (ps.map gFilter) (r.syscalls.map sysText) []) =
+        some { flags := r.flags, action := r.action, allSyscalls := false, syscalls := r.syscalls, trips := r.trips, strings := r.strings } := by
+      simp only [ruleDataOf, setList_getList hl, setAction_getAction ha, hfold']
+      rw [hns, hsysfold]
+      simp [addKeys]
+    refine ⟨_, _, hparse, hrd, rfl, ?_⟩
+    exact toWire_congr _ _ rfl rfl rfl rfl hall.symm rfl
+
+/-- non-vacuity of `C07_roundtrip_syscalls`: `-a always,exit -S open,close -F pid=1 -k a` satisfies its hypotheses. -/
+example : ((ruleDataOf ⟨false, [], []⟩ (.syscall 3 (ofString "exit") (ofString "always")
+    [⟨2, ofString "pid", [61], ofString "1"⟩] [ofString "open", ofString "close", ofString "2000"] [ofString "a"])).map (fun r =>
+      !r.allSyscalls && decide (r.syscalls = [2, 3, 2000]) && decide (r.trips.length = 2) &&
+      r.strings.all (fun s => match s with | c :: _ => c != 61 | [] => false) &&
+      r.trips.all (fun t => !(t.1 == LA.Gen.RuleTables.archField) && !(t.1 == LA.Gen.RuleTables.permField)))) = some true := by
   decide +kernel
 
 /-- Wire round trip: the library's own decoder (fromWireFormat + fromAuditRuleData, the first half
